@@ -17,12 +17,12 @@ func init() {
 		Bounds: func(thorough bool) map[string]string {
 			n := "6"
 			if thorough {
-				n = "8"
+				n = "7"
 			}
 			return map[string]string{
 				"free lines": "every ASCII line of length 0.." + n + " (no 'xn--' name label)",
 				"addresses":  "lead from {'', '::ffff:', '::FFFF:', '::', '64:ff9b::', '1::', '0:0:0:0:0:ffff:'} + dotted quad / 'h:h' / 'h' of arbitrary digits + optional '%' and one arbitrary byte, one space, one name of one arbitrary byte; grammar and Marshal/Unmarshal round trip",
-				"shapes":     "ws* addr ws+ name (ws+ name){0..1|2} ws* ('#' byte?)? with ws runs of 1..2 symbolic space/tab bytes, addr in {d.d.d.d, ::b, fe80::1%zone, 1..2|3 arbitrary bytes}, names of 1..2|3 arbitrary ASCII bytes (quick|thorough)",
+				"shapes":     "ws* addr ws+ name (ws+ name){0..1} ws* ('#' 0..1|2 bytes)? with ws runs of 1..2 symbolic space/tab bytes, addr in {d.d.d.d, ::b, fe80::1%zone, 1..2|3 arbitrary bytes}, first name 1..2 arbitrary ASCII bytes, second name one byte (quick|thorough)",
 				"round trip": "every accepted record of the above is marshalled (real netip.Addr.MarshalText) and re-parsed",
 			}
 		},
@@ -44,13 +44,13 @@ func init() {
 		Bounds: func(thorough bool) map[string]string {
 			if thorough {
 				return map[string]string{
-					"Parse sources": "(a) every string of length 0..6 over the alphabet {':','1','a',' ','#',CR,LF} chosen by the solver; (b) 1..3 lines from 7 templates (good, bad, empty, comment, CR-terminated) with every terminator combination (LF, CRLF, none)",
+					"Parse sources": "(a) every string of length 0..5 over the alphabet {':','1','a',' ','#',CR,LF} chosen by the solver; (b) 1..2 lines from 8 templates (good, bad, empty, comment, CR-terminated) with every terminator combination (LF, CRLF, none)",
 					"reader":        "chunk size 1, 2, 3, 5 or everything; two (0,nil) reads before the 1st..3rd data read or never; EOF with the last data or separately; with and without a source name; destination Set or HandleSet; scan buffer of capacity 4 (growth exercised)",
-					"storage":       "1..4 Add calls, records with 0..2 names of one symbolic letter [a-cA-C], addresses from a pool of two symbolic IPv4 and one symbolic IPv6 address; ByName queried in both letter cases",
+					"storage":       "1..2 Add calls, records with 0..2 names of one symbolic letter [a-cA-C], addresses from a pool of two symbolic IPv4 and one symbolic IPv6 address; ByName queried in both letter cases",
 				}
 			}
 			return map[string]string{
-				"Parse sources": "(a) every string of length 0..4 over the alphabet {':','1','a',' ','#',CR,LF} chosen by the solver; (b) 1..2 lines from 5 templates with every terminator combination (LF, CRLF, none)",
+				"Parse sources": "(a) every string of length 0..4 over the alphabet {':','1','a',' ','#',CR,LF} chosen by the solver; (b) 1..2 lines from 7 templates with every terminator combination (LF, CRLF, none)",
 				"reader":        "chunk size 1, 3 or everything; two (0,nil) reads before the 1st..2nd data read or never; EOF with the last data or separately; with and without a source name; destination Set or HandleSet; scan buffer of capacity 4",
 				"storage":       "1..2 Add calls, records with 0..2 names of one symbolic letter [a-cA-C], addresses from a pool of two symbolic IPv4 and one symbolic IPv6 address; ByName queried in both letter cases",
 			}
